@@ -23,6 +23,7 @@ except Exception:       # the client half is optional while it is being built
 
 ID = 'C06'
 KINDS = ['enum']
+USES_KERNEL = True
 LEVEL = 'exploration'
 TECHNIQUE = ('bounded-exhaustive enumeration of control messages (envelope grammar, byte-level damage, per-command '
              'property products, asynchronously failing operations) x base daemon states, executed on the real '
